@@ -93,7 +93,7 @@ func resolveAlgRows(c *Ctx, ev *evaluator, fn *ssa.Function, roles map[int64]str
 	}
 	for _, ret := range returnsOf(fn) {
 		for what, i := range idx {
-			for _, pe := range phiEdges(ret.Results[i], ret.Block()) {
+			for _, pe := range phiEdges(retResults(ret)[i], ret.Block()) {
 				k, ok := caseLabel(pe.From, isTag)
 				if !ok {
 					continue // default / fall-through edge: no algorithm constant is known here
@@ -664,7 +664,7 @@ func namedCurveInverse(c *Ctx, ev *evaluator, curvesG []*ssa.Global) (map[string
 	}
 	out := map[string]string{}
 	for _, ret := range returnsOf(fn) {
-		for _, pe := range phiEdges(ret.Results[0], ret.Block()) {
+		for _, pe := range phiEdges(retResults(ret)[0], ret.Block()) {
 			v := pe.Val
 			if k, ok := v.(*ssa.Const); ok && k.Value == nil {
 				continue // nil curve with error
